@@ -5,6 +5,7 @@ package main
 
 import (
 	"bytes"
+	"encoding/binary"
 	"errors"
 	"fmt"
 	"io"
@@ -48,6 +49,7 @@ type recWriter struct {
 	shard uint64
 	node  uint64
 	wrong int32
+	alias bool // keep the slices handed in (they alias a buffer Current() allocated for this call)
 }
 
 func (w *recWriter) WriteShardBinary(shardID, ownerID uint64, points [][]byte) error {
@@ -58,7 +60,11 @@ func (w *recWriter) WriteShardBinary(shardID, ownerID uint64, points [][]byte) e
 	}
 	cp := make([][]byte, len(points))
 	for i, p := range points {
-		cp[i] = append([]byte(nil), p...)
+		if w.alias {
+			cp[i] = p
+		} else {
+			cp[i] = append([]byte(nil), p...)
+		}
 	}
 	out := outOK
 	if w.next != nil {
@@ -128,19 +134,49 @@ func mkPoint(seq uint64, fieldBytes int) models.Point {
 	return p
 }
 
-// mkPointEncoded returns a point whose MarshalBinary form is exactly n bytes.
-func mkPointEncoded(seq uint64, n int) models.Point {
-	guess := n - 64
-	if guess < 1 {
-		guess = 1
+// rawPoint builds a point directly in its MarshalBinary form (exactly n bytes:
+// 4-byte key length, key "m,seq=<seq>", 4-byte fields length, fields
+// v="<filler>", 15 time bytes) and parses it with models.NewPointFromBytes.
+// Large points are made this way because fresh memory is expensive under the
+// race detector.
+var fillPattern = func() []byte {
+	b := make([]byte, 4096)
+	for i := range b {
+		b[i] = 'a' + byte(i%26)
 	}
-	p := mkPoint(seq, guess)
-	b, _ := p.MarshalBinary()
-	p = mkPoint(seq, guess+n-len(b))
-	if b, _ = p.MarshalBinary(); len(b) != n {
-		harnessFatal("mkPointEncoded: wanted %d got %d", n, len(b))
+	return b
+}()
+
+func rawPoint(seq uint64, n int) (models.Point, []byte) {
+	key := "m,seq=" + fmt.Sprint(seq)
+	tb, _ := time.Unix(0, int64(seq)).UTC().MarshalBinary()
+	fixed := 4 + len(key) + 4 + len(`v=""`) + len(tb)
+	fill := n - fixed
+	if fill < 1 {
+		fill = 1
 	}
-	return p
+	raw := make([]byte, fixed+fill)
+	i := 0
+	binary.BigEndian.PutUint32(raw[i:], uint32(len(key)))
+	i += 4
+	i += copy(raw[i:], key)
+	binary.BigEndian.PutUint32(raw[i:], uint32(len(`v=""`)+fill))
+	i += 4
+	i += copy(raw[i:], `v="`)
+	off := int(seq % 26)
+	for fill > 0 {
+		k := copy(raw[i:i+fill], fillPattern[off:])
+		i += k
+		fill -= k
+		off = 0
+	}
+	i += copy(raw[i:], `"`)
+	copy(raw[i:], tb)
+	p, err := models.NewPointFromBytes(raw)
+	if err != nil {
+		harnessFatal("rawPoint: %v", err)
+	}
+	return p, raw
 }
 
 func marshalPoints(ps []models.Point) [][]byte {
@@ -390,13 +426,14 @@ func runProcSmall(caseID string, seed int64, root string) {
 
 // ------------------------------------------------------- bisection
 
-var bigSem = make(chan struct{}, 4)
+var bigSem = make(chan struct{}, 3)
 
 const segLimit = hh.VerifDefaultSegmentSize
 
 // runProcBig writes one batch whose encoding exceeds the segment size so that
-// WriteShard has to bisect it, then delivers with scripted outcomes.
-func runProcBig(caseID string, seed int64, root string) {
+// WriteShard has to bisect it, then delivers with scripted outcomes. Sizes are
+// MarshalBinary sizes of the points; a block is 8 + sum(4 + size).
+func runProcBig(caseID string, seed int64, shape int, root string) {
 	bigSem <- struct{}{}
 	defer func() { <-bigSem }()
 	g := rand.New(rand.NewSource(seed))
@@ -404,65 +441,56 @@ func runProcBig(caseID string, seed int64, root string) {
 	os.RemoveAll(dir)
 	defer os.RemoveAll(dir)
 
-	// shape of the batch
 	var sizes []int
-	exact := false // sizes are encoded point sizes rather than field sizes
-	shape := g.Intn(7)
 	switch shape {
-	case 0: // few equal points, total just above the limit
+	case 0: // few equal points, total just above the limit: two blocks
 		n := 3 + g.Intn(6)
 		each := segLimit/n + 1 + g.Intn(4000)
 		for i := 0; i < n; i++ {
 			sizes = append(sizes, each)
 		}
-	case 1: // 2-3x the limit in medium points
-		n := 9 + g.Intn(24)
-		total := segLimit*2 + g.Intn(segLimit/2)
-		for i := 0; i < n; i++ {
-			sizes = append(sizes, total/n)
-		}
-	case 2: // one point larger than a segment in the middle: must be refused
+	case 1: // one point larger than a segment in the middle: must be refused, the prefix may stay accepted
 		n := 3 + g.Intn(4)
 		for i := 0; i < n; i++ {
 			sizes = append(sizes, 200000+g.Intn(100000))
 		}
 		sizes[1+g.Intn(n-1)] = segLimit + 100
-	case 3: // many small points
-		n := 12000 + g.Intn(4000)
-		for i := 0; i < n; i++ {
-			sizes = append(sizes, 700+g.Intn(300))
-		}
-	case 4: // halves whose encoding lands within a few bytes of the limit
-		// block = 8 + sum(4 + len(point)); two points per half
+	case 2: // halves whose encoding lands within a few bytes of the limit
 		a := (segLimit - 8 - 8) / 2
-		exact = true
 		sizes = []int{a, segLimit - 8 - 8 - a - 2 + g.Intn(5), a, segLimit - 8 - 8 - a - 10 + g.Intn(5)}
+	case 3: // a block whose encoding falls in (limit-8, limit]: passes WriteShard's test, no segment can hold it
+		sizes = []int{segLimit - 8 - 4 - g.Intn(8), 100}
+	case 4: // many small points
+		n := 11000 + g.Intn(3000)
+		for i := 0; i < n; i++ {
+			sizes = append(sizes, 900+g.Intn(300))
+		}
 	case 5: // skewed: big head, small tail
 		sizes = []int{segLimit*6/10 + g.Intn(1000), segLimit*3/10 + g.Intn(1000)}
 		for i := 0; i < 5+g.Intn(20); i++ {
-			sizes = append(sizes, 1000+g.Intn(300000))
+			sizes = append(sizes, 1000+g.Intn(200000))
 		}
-	default: // a block whose encoding falls in (limit-8, limit]: passes WriteShard's test, no segment can hold it
-		exact = true
-		sizes = []int{segLimit - 8 - 4 - g.Intn(8), 100}
+	default: // about twice the limit in medium points: several levels of bisection
+		n := 9 + g.Intn(24)
+		total := segLimit*2 + g.Intn(segLimit/4)
+		for i := 0; i < n; i++ {
+			sizes = append(sizes, total/n)
+		}
 	}
 	r.Begin(caseID, map[string]interface{}{"seed": seed, "shape": shape, "points": len(sizes)})
 	r.Eval(1)
 	ps := make([]models.Point, len(sizes))
-	for i, s := range sizes {
-		if exact {
-			ps[i] = mkPointEncoded(uint64(i+1), s)
-		} else {
-			ps[i] = mkPoint(uint64(i+1), s)
-		}
-	}
-	orig := marshalPoints(ps)
+	orig := make([][]byte, len(sizes))
 	var total int64
-	for _, b := range orig {
-		total += int64(len(b)) + 4
+	for i, s := range sizes {
+		ps[i], orig[i] = rawPoint(uint64(i+1), s)
+		total += int64(len(orig[i])) + 4
+	}
+	if b, err := ps[0].MarshalBinary(); err != nil || !bytes.Equal(b, orig[0]) {
+		harnessFatal("rawPoint does not round-trip through MarshalBinary")
 	}
 
-	w := &recWriter{shard: 7, node: 3}
+	w := &recWriter{shard: 7, node: 3, alias: true}
 	m := &metaDouble{active: 1}
 	var planned string
 	w.next = func(int, [][]byte) string { return planned }
@@ -593,9 +621,11 @@ func trimInts(a []int, n int) []int {
 // runProcAge lets the processor's own purge timer discard whole segments that
 // the harness made older than MaxAge with os.Chtimes, then checks that exactly
 // the blocks of those segments are gone.
-func runProcAge(caseID string, seed int64, root string) {
-	bigSem <- struct{}{}
-	defer func() { <-bigSem }()
+func runProcAge(caseID string, seed int64, big bool, root string) {
+	if big {
+		bigSem <- struct{}{}
+		defer func() { <-bigSem }()
+	}
 	g := rand.New(rand.NewSource(seed))
 	dir := filepath.Join(root, "age-"+fmt.Sprint(seed&0xffffffffff))
 	os.RemoveAll(dir)
@@ -622,9 +652,18 @@ func runProcAge(caseID string, seed int64, root string) {
 		return
 	}
 	nblocks := 3 + g.Intn(2)
+	if !big {
+		nblocks = 2 + g.Intn(8) // small blocks: everything sits in one segment
+	}
 	var blocks [][][]byte
 	for i := 0; i < nblocks; i++ {
-		p := []models.Point{mkPoint(uint64(i+1), segLimit*55/100+g.Intn(1000))}
+		var p []models.Point
+		if big {
+			pt, _ := rawPoint(uint64(i+1), segLimit*55/100+g.Intn(1000))
+			p = []models.Point{pt}
+		} else {
+			p = []models.Point{mkPoint(uint64(i+1), g.Intn(200))}
+		}
 		cur = i
 		if err := np.WriteShard(p); err != nil {
 			np.Close()
@@ -635,7 +674,7 @@ func runProcAge(caseID string, seed int64, root string) {
 	cur = -1
 	files := segFiles(dir)
 	k := 1 + g.Intn(len(files))
-	if g.Intn(4) == 0 {
+	if g.Intn(3) == 0 {
 		k = 0
 	}
 	old := time.Now().Add(-3 * time.Hour)
